@@ -67,7 +67,8 @@ def _treat_failed_block(block: ParsingFailedBlock, bibtex_format: "BibtexFormat"
         # Blocks which were not parsed from a text (e.g. a duplicate of blocks created in code)
         #   have no raw text: write the block which caused the error instead, if there is one.
         faulty_block = block.ignore_error_block
-        raw = "" if faulty_block is None else "".join(_treat_block(bibtex_format, faulty_block)).rstrip("\n")
+        raw = "" if faulty_block is None else "".join(_treat_block(bibtex_format, faulty_block))
+        raw = raw[:-1] if raw.endswith("\n") else raw
     lines = len(raw.splitlines())
     parsing_failed_comment = bibtex_format.parsing_failed_comment.format(n=lines)
     return [parsing_failed_comment, "\n", raw, "\n"]
@@ -75,7 +76,14 @@ def _treat_failed_block(block: ParsingFailedBlock, bibtex_format: "BibtexFormat"
 
 def _calculate_auto_value_align(library: Library) -> int:
     max_key_len = 0
-    for entry in library.entries:
+    entries = list(library.entries)
+    # (entries which are written in place of a failed block without raw text)
+    for block in library.failed_blocks:
+        while block.raw is None and isinstance(block.ignore_error_block, ParsingFailedBlock):
+            block = block.ignore_error_block
+        if block.raw is None and isinstance(block.ignore_error_block, Entry):
+            entries.append(block.ignore_error_block)
+    for entry in entries:
         for key in entry.fields_dict:
             max_key_len = max(max_key_len, len(key))
     return max_key_len + len(VAL_SEP)
